@@ -31,6 +31,15 @@ def search(tier, seed):
         if verdict(impl) != "INC":
             return total, "a proper prefix of a valid response is not reported incomplete:\ninput %s\nverdict %s" % (C.show_input(h), impl[:200]), samples, len(seen)
     samples.append("prefix %s -> %s" % (C.show_input(rows[len(rows) // 2][0], 60), rows[len(rows) // 2][1]))
+    # the same for response lines far beyond 8 KiB (sampled cuts, dense around 8192)
+    rows = C.parse_stream("longline", seed, 5 if tier == "quick" else 60)
+    for h, impl, ex in rows:
+        total += 1
+        seen.add(h[:64] + str(len(h)))
+        want = "INC" if ex == "P" else "OK"
+        if verdict(impl) != want:
+            return total, "a response line of %d bytes: %s is reported %s instead of %s:\ninput %s..." % (
+                len(h) // 2, "a proper prefix" if ex == "P" else "the whole line", impl[:60], want, C.show_input(h, 120)), samples, len(seen)
     # (B, B++X): accept/reject verdicts are final
     rows = C.parse_stream("stability", seed, n_stab)
     nontriv = 0
